@@ -35,7 +35,8 @@ Fixpoint strip10 (fuel : nat) (c : N) (e : Z) : N * Z :=
            else if (c mod 10 =? 0) then strip10 f (c / 10) (e + 1)%Z else (c, e)
   end.
 Definition dnum (neg : bool) (c : N) (e : Z) : dev :=
-  let '(c', e') := strip10 (N.to_nat (N.size c)) c e in DNum neg c' e'.
+  if c =? 0 then DNum neg 0 0%Z
+  else let '(c', e') := strip10 (N.to_nat (N.size c)) c e in DNum neg c' e'.
 
 Definition dfloat_den (d : dfloat) : dev :=
   match d with
